@@ -480,6 +480,37 @@ def count_carried(repo: Repo) -> RuleRun:
             fn.node,
             key=f"count:{p}",
         )
+    # the count a manager reports (the one written into the hex entry) is the TOTAL of its grading, all divisions
+    for clsname in ("items.wires.manager.WireChopManager", "items.wires.manager.WirePropagateManager"):
+        mcls = repo.cls(clsname)
+        cm = repo.find_method(mcls, "count")
+        r.require(cm is not None and cm.is_property, f"{clsname}.count is no longer a property")
+
+        def grading(tag):
+            g = Obj(f"grading_{tag}")
+            g.set("count", Sym(f"TOTAL_{tag}"))
+            g.set("counts", [Sym(f"n0_{tag}"), Sym(f"n1_{tag}")])
+            g.set("is_defined", True)
+            g.set("specification", [[Sym("r0"), Sym(f"n0_{tag}"), Sym("e0")], [Sym("r1"), Sym(f"n1_{tag}"), Sym("e1")]])
+            return g
+
+        mgr = Obj("mgr", cls=mcls)
+        mgr.set("grading", grading("axis"))
+        mgr.set("wires", [Obj(f"w{i}", grading=grading("wire")) for i in range(4)])
+        mgr.set("chops", [])
+        try:
+            got = Evaluator(repo=repo, module=cm.module).call_funcinfo(cm, [mgr])
+        except (NotEvaluable, Raised) as err:
+            raise AnalysisError(f"{cm.qualname} not evaluable on a two-division grading: {err}") from err
+        r.check(
+            got in (Sym("TOTAL_axis"), Sym("TOTAL_wire")),
+            cm,
+            f"{mcls.name}.count = total count of the grading",
+            f"{mcls.name}.count of an axis graded in two divisions is {got!r}; the hex entry must carry the TOTAL count of the grading (all divisions), "
+            "otherwise a multigraded family is written with the count of one division next to blocks that carry the sum",
+            cm.node,
+            key=f"manager-count:{mcls.name}",
+        )
     # Block.description prints counts in axis order
     desc = repo.func("items.block.Block.description")
     found = False
